@@ -34,11 +34,13 @@ STATES = ['IDLE-fresh', 'IDLE-stopped', 'CONNECT', 'OPENSENT', 'OPENCONFIRM', 'E
 CREDS = {'none': None, 'wrong-user': ('root', 'admin'), 'wrong-password': ('admin', 'nimda'), 'empty-password': ('admin', ''),
          'password-prefix': ('admin', 'admi'), 'password-longer': ('admin', 'admin1'), 'password-case': ('admin', 'ADMIN'),
          'user-case': ('Admin', 'admin'), 'empty-user': ('', 'admin'), 'swapped': ('nimda', 'admin'),
+         'wrong-user-empty-password': ('root', ''), 'both-empty': ('', ''), 'wrong-user-none': ('root', 'None'),
+         'user-with-colon': ('admin:admin', ''),
          'right': ('admin', 'admin')}
 # a second configured account, to see that the check really compares with the configuration
 ALT_ACCOUNT = ('operator', 's3:cr et')
 ALT_CREDS = {'none': None, 'default-account': ('admin', 'admin'), 'wrong-password': ('operator', 's3'), 'password-prefix': ('operator', 's3:cr e'),
-             'password-up-to-blank': ('operator', 's3:cr'), 'right': ALT_ACCOUNT}
+             'password-up-to-blank': ('operator', 's3:cr'), 'wrong-user-empty-password': ('root', ''), 'right': ALT_ACCOUNT}
 
 
 def rules():
@@ -129,9 +131,9 @@ def matrix_case(state, rule, path, methods, method, cred, bodykind, alt=False):
         elif method == 'OPTIONS' and code == 200 and not body:
             pass     # the framework's automatic OPTIONS reply: no body, and (checked below) no effect
         else:
-            out.append(('auth:%s:%s:%s->%s' % (short, method, cred, code), '%s %s with %s credentials answered %s %r' % (method, path, cred, code, body)))
+            out.append(('auth:not-rejected:%s' % cred, '%s %s with %s credentials answered %s %r' % (method, path, cred, code, body)))
         if before != after:
-            out.append(('auth:effect:%s:%s' % (short, cred), '%s %s with %s credentials changed the agent: %r -> %r' % (method, path, cred, before, after)))
+            out.append(('auth:effect:%s' % cred, '%s %s with %s credentials changed the agent: %r -> %r' % (method, path, cred, before, after)))
         return out, True
     # right credentials
     if code == 401:
